@@ -426,7 +426,7 @@ func runSCIONServer(ctx context.Context, log *slog.Logger, mtrcs *scionServerMet
 					continue
 				}
 
-				key, ok := provider.Get(int(encryptedCookie.ID))
+				key, ok := provider.Lookup(encryptedCookie.ID)
 				if !ok {
 					log.LogAttrs(ctx, slog.LevelInfo, "failed to get key")
 					continue
